@@ -139,15 +139,6 @@ class StdioClient:
                 await legacy_stream.aclose()
             except anyio.BrokenResourceError:
                 pass
-
-            # The waiter has its answer; the copy for general listeners must not
-            # hold the reader up when nobody reads the main stream (an application
-            # using per-request streams only would stall after 100 answers)
-            try:
-                self._incoming_send.send_nowait(msg)  # type: ignore[union-attr]
-            except (anyio.WouldBlock, anyio.BrokenResourceError):
-                pass
-            return
         else:
             # No legacy stream - just log for debugging
             logger.debug(f"Received message for unknown id: {msg_id}")
